@@ -10,6 +10,7 @@ import (
 	"sort"
 	"strings"
 	"sync"
+	"sync/atomic"
 	"time"
 
 	"github.com/bartossh/Computantis/src/cache"
@@ -212,7 +213,137 @@ func runCache(tier string, seed int64, summaryPath, outPath string) {
 		}
 		h.Close()
 	}
-	sum.Exhaustive = "sequential part: seeded op sequences; concurrent part: 16 goroutines per round on one receiver (search, not proof)"
+	// mixed rounds: savers, an authorised remover and polling readers all at once on one issuer/receiver pair; afterwards the
+	// listing of BOTH addresses must be exactly saved-and-not-removed (every interleaving of atomic operations ends there)
+	nMixed := nConc / 5
+	if nMixed < 8 {
+		nMixed = 8
+	}
+	for round := 0; round < nMixed; round++ {
+		h, _ := cache.New(32*10_000, 128) // the node's own sizing (cmd/node): no capacity eviction at these volumes
+		const n = 40
+		ts := make([]transaction.Transaction, n)
+		for i := range ts {
+			ts[i] = transaction.Transaction{CreatedAt: time.Now(), IssuerAddress: addrs[0], ReceiverAddress: addrs[3], Subject: "m", Data: []byte{1}, Spice: spice.Melange{Currency: 1}}
+			ts[i].Hash[0], ts[i].Hash[1], ts[i].Hash[2] = byte(i+1), 0x77, byte(round)
+		}
+		var wg sync.WaitGroup
+		saved := make(chan int, n)
+		stop := make(chan struct{})
+		removed := make([]bool, n)
+		savedOK := make([]bool, n)
+		wg.Add(1)
+		go func() { // saver
+			defer wg.Done()
+			for i := range ts {
+				if h.SaveAwaitedTransaction(&ts[i]) == nil {
+					savedOK[i] = true
+					saved <- i
+				}
+			}
+			close(saved)
+		}()
+		wg.Add(1)
+		go func() { // the receiver removes every second transaction as soon as it is saved
+			defer wg.Done()
+			for i := range saved {
+				if i%2 == 0 {
+					if _, err := h.RemoveAwaitedTransaction(ts[i].Hash, addrs[3]); err == nil {
+						removed[i] = true
+					}
+				}
+			}
+		}()
+		var rg sync.WaitGroup
+		for r := 0; r < 6; r++ {
+			rg.Add(1)
+			go func(r int) {
+				defer rg.Done()
+				for {
+					select {
+					case <-stop:
+						return
+					default:
+						h.ReadTransactions(addrs[(r%2)*3])
+					}
+				}
+			}(r)
+		}
+		wg.Wait()
+		close(stop)
+		rg.Wait()
+		for _, a := range []string{addrs[0], addrs[3]} {
+			trxs, _ := h.ReadTransactions(a)
+			cnt := map[int]int{}
+			for _, t := range trxs {
+				cnt[int(t.Hash[0])-1]++
+			}
+			lost, invented := 0, 0
+			for i := range ts {
+				switch {
+				case savedOK[i] && !removed[i] && cnt[i] == 0:
+					lost++
+				case (removed[i] || !savedOK[i]) && cnt[i] > 0, cnt[i] > 1:
+					invented++
+				}
+			}
+			if lost+invented > 0 {
+				viol("concurrent-lost-or-invented-entry", map[string]any{"round": round, "kind": "mixed save/remove/read", "lost": lost, "invented_or_duplicated": invented})
+			}
+		}
+		sum.Evaluations++
+		sum.Kinds["concurrent.mixed_round"]++
+		h.Close()
+	}
+	// duplicate rounds: the SAME transaction saved by 8 goroutines at once: one must win, it is listed once
+	var h *cache.Hippocampus
+	for round := 0; round < nConc*4; round++ {
+		if round%20 == 0 {
+			if h != nil {
+				h.Close()
+			}
+			h, _ = cache.New(32*10_000, 128) // the node's own sizing (cmd/node): no capacity eviction at these volumes
+		}
+		t := transaction.Transaction{CreatedAt: time.Now(), IssuerAddress: addrs[1], ReceiverAddress: addrs[3], Subject: "d", Data: []byte{1}, Spice: spice.Melange{Currency: 1}}
+		t.Hash[0], t.Hash[1], t.Hash[2] = 1, 0x99, byte(round)
+		var wg sync.WaitGroup
+		var okCount int32
+		start := make(chan struct{})
+		for g := 0; g < 8; g++ {
+			wg.Add(1)
+			go func() {
+				defer wg.Done()
+				cp := t
+				<-start
+				if h.SaveAwaitedTransaction(&cp) == nil {
+					atomic.AddInt32(&okCount, 1)
+				}
+			}()
+		}
+		close(start)
+		wg.Wait()
+		for _, a := range []string{addrs[1], addrs[3]} {
+			trxs, _ := h.ReadTransactions(a)
+			listed := 0
+			for _, x := range trxs {
+				if x.Hash == t.Hash {
+					listed++
+				}
+			}
+			if listed != 1 {
+				viol("concurrent-lost-or-invented-entry", map[string]any{"round": round, "kind": "same transaction saved concurrently", "listed": listed, "saves_ok": okCount})
+			}
+		}
+		if okCount != 1 {
+			viol("concurrent-duplicate-save-accepted", map[string]any{"round": round, "saves_ok": okCount})
+		}
+		sum.Evaluations++
+		sum.Kinds["concurrent.duplicate_round"]++
+	}
+	if h != nil {
+		h.Close()
+	}
+	sum.Exhaustive = "sequential part: seeded op sequences; concurrent part: phased rounds (16 savers, then 8 removers), mixed rounds (saver + remover + 6 polling readers) and duplicate rounds (one transaction saved by 8 goroutines) on one receiver (search, not proof)"
 	var b bytes.Buffer
 	b.WriteString("From Coq Require Import List Arith NArith Bool.\nFrom Verif Require Import Cache CheckCache.\nImport ListNotations.\nLocal Open Scope N_scope.\n")
 	b.WriteString("Definition traces : list (list cobs) := [\n" + strings.Join(traces, ";\n") + "].\n")
